@@ -258,6 +258,21 @@ func (e *retryEngine) Exec(f []string) Result {
 	run := runRetryScript(cfg, method, faults, evs, plan)
 	out := run.render(stuck)
 	r := Result{Out: out, Tags: []string{"nontrivial", "cfg=" + cfg, fmt.Sprintf("faults%d", strings.Count(faults, ",")+b2i(faults != "-")), fmt.Sprintf("conns%d", len(run.sc.conns))}}
+	script := strings.Join(evs, " ")
+	for _, fk := range []string{"wf", "lr", "la", "si"} {
+		if strings.Contains(","+faults+",", ","+fk+",") {
+			r.Tags = append(r.Tags, "fault:"+fk)
+		}
+	}
+	for tag, pat := range map[string]string{"qos2": ":2 ", "subscribe": "sub:", "unsubscribe": "unsub:", "session-lost": "ack+:0", "connack-refused": "ack-", "connack-never": "ack0",
+		"dial-failure": "dial-", "peer-close": "close", "inbound": "in:", "handle": "handle:", "disconnect": "disc", "before-connect": ""} {
+		if pat != "" && strings.Contains(script+" ", pat) {
+			r.Tags = append(r.Tags, "has:"+tag)
+		}
+	}
+	if len(evs) > 0 && evs[0] != "start" {
+		r.Tags = append(r.Tags, "has:request-before-connect")
+	}
 	if len(run.planMiss) > 0 {
 		r.Out += " PLANMISS=" + strings.Join(run.planMiss, "|")
 		r.Tags = append(r.Tags, "planmiss")
